@@ -1,6 +1,6 @@
 (* C01 — every evaluated point is a genuine point of the search space.  Statements only. *)
 Require Import Base StopRun Converter ConverterFacts CoreOpt Tracker Algos Driver DriverFacts CoreFacts AlgoFacts AlgoLift Grid GridFacts C16_proofs.
-Require Import Pop PopFacts.
+Require Import Pop PopFacts Smbo.
 
 (* (i) the move operators: for EVERY tape of draws (huge, fractional, +-inf samples included) a returned
    position has every index in [0, len-1] *)
@@ -146,3 +146,11 @@ Theorem C01_direct_iterate : forall sp cons fuel, dims_ok sp -> forall cand t p 
   cand_iterate sp cons fuel cand t = Ok (p, t', c) -> emit_ok sp cons p /\ is_suffix t' t /\ 0 < c.
 Proof. exact cand_iterate_ok. Qed.
 Print Assumptions C01_direct_iterate.
+
+(* model-based optimizers (Bayesian, forest, TPE, Lipschitz): a proposal accepted by the proposal rule is a member of the candidate set;
+   when every candidate lies in the box and satisfies the constraints (checked on every observed candidate set by C17's S-unit), so
+   does the proposal *)
+Theorem C01_smbo_proposal : forall sp cons (comb : list pos) acq i p, dims_ok sp ->
+  forallb (emit_b sp cons) comb = true -> proposal_ok comb acq i p = true -> emit_ok sp cons p.
+Proof. exact smbo_proposal_emit. Qed.
+Print Assumptions C01_smbo_proposal.
